@@ -112,6 +112,32 @@ NAMED_SHAPES = {
 }
 
 
+def weighted_toy_universe(n_ind=2):
+    """A graph whose derived values are *weighted* tensors with genuine relative weights (0.5, 2, 1, 0), as a reliability of
+    visits would be: w = t * a (weighted, individual axis), q = weighted sum of w over visits, z = q + b (aggregated)."""
+    from leaspy.utils.weighted_tensor import WeightedTensor
+
+    def fn(src):
+        ns = {}
+        exec(src, ns)
+        return ns["f"]
+
+    spec = {
+        "t": DataVariable(), "a": DataVariable(), "b": DataVariable(),
+        "w": LinkedVariable(fn("def f(*, t, a):\n    return t * a\n")),
+        "q": LinkedVariable(fn("def f(*, w):\n    return w.wsum(dim=1)[0]\n")),
+        "z": LinkedVariable(fn("def f(*, q, b):\n    return (q * b).sum()\n")),
+    }
+    dag = VariablesDAG.from_dict(spec)
+    vals = torch.tensor([[1.0, 2.0], [3.0, 4.0], [5.0, 6.0]], dtype=torch.float64)[:n_ind]
+    wts = torch.tensor([[0.5, 2.0], [1.0, 0.0], [4.0, 0.25]], dtype=torch.float64)[:n_ind]
+    t0 = WeightedTensor(vals.clone(), wts.clone())
+    a0 = torch.arange(2.0, 2.0 + n_ind, dtype=torch.float64).reshape(n_ind, 1)
+    settable = {"a": [a0.clone(), -3.0 * a0 + 1.0], "b": [torch.tensor(7.0, dtype=torch.float64), torch.tensor(-2.0, dtype=torch.float64)]}
+    base = {"t": t0, "a": a0.clone(), "b": torch.tensor(7.0, dtype=torch.float64)}
+    return statemc.Universe(dag, settable, {}, n_ind, base=base)
+
+
 def model_universe(name, thorough=False):
     spec = MODEL_SPECS[name]
     model = build_model(spec)
@@ -177,6 +203,7 @@ def shards(tier, seed):
                 out.append({"kind": "toy", "n": n, "edges": edges, "depth": 3, "accumulate": True})
         for name in NAMED_SHAPES:
             out.append({"kind": "named", "name": name, "depth": 4, "accumulate": False})
+        out.append({"kind": "wtoy", "n_ind": 2, "depth": None})
         for name in MODEL_SPECS:
             out.append({"kind": "model", "name": name, "depth": 2, "thorough": False})
     else:
@@ -188,6 +215,8 @@ def shards(tier, seed):
             out.append({"kind": "toy", "n": 5, "edges": edges, "depth": 4, "accumulate": False})
         for name in NAMED_SHAPES:
             out.append({"kind": "named", "name": name, "depth": 6, "accumulate": False})
+        out.append({"kind": "wtoy", "n_ind": 2, "depth": None})
+        out.append({"kind": "wtoy", "n_ind": 3, "depth": None})
         for name in MODEL_SPECS:
             out.append({"kind": "model", "name": name, "depth": 3, "thorough": True})
     return out
@@ -204,6 +233,8 @@ def _universe_for(shard):
         return toy_universe(nn, all_edges)
     if shard["kind"] == "model":
         return model_universe(shard["name"], shard.get("thorough", False))
+    if shard["kind"] == "wtoy":
+        return weighted_toy_universe(shard["n_ind"])
     raise ValueError(shard)
 
 
@@ -213,6 +244,8 @@ def _menu_kwargs(shard):
             return dict(accumulate=True, clones=True, ctx=True)
         return dict(accumulate=False, clones=True, modes=(None, "REF"), masks=[[1, 0], [0, 1]], ctx=False,
                     reads=["model", "nll_attach_ind", "nll_attach", "nll_regul_ind_sum_ind", "rt", "n_obs", "n_obs_per_ft"])
+    if shard["kind"] == "wtoy":
+        return dict(accumulate=False, puts=False, clones=shard["depth"] is None, ctx=False)
     return dict(accumulate=shard.get("accumulate", False), puts=shard.get("puts", True), clones=True,
                 ctx=shard.get("depth") is not None)
 
@@ -220,7 +253,7 @@ def _menu_kwargs(shard):
 def run_shard(shard):
     acc = Acc()
     u = _universe_for(shard)
-    label = shard.get("name") or f"toy{shard['n']}:{shard['edges']}"
+    label = shard.get("name") or (f"weighted toy, {shard['n_ind']} individuals" if shard["kind"] == "wtoy" else f"toy{shard['n']}:{shard['edges']}")
     for mode in (None, "REF"):
         n_states, depth, fix = statemc.bfs(
             u, acc, max_depth=shard["depth"], menu_kwargs=_menu_kwargs(shard), mode=mode, label=label,
